@@ -76,8 +76,14 @@ impl AuthKey {
     pub fn as_key_type(&mut self, alg: u8, key: &[u8], engine_id: &[u8]) -> SnmpResult<()> {
         if self.has_auth() {
             match alg & KT_TYPE_MASK {
+                // RFC 3414 A.2 expands a non-empty password
+                KT_PASSWORD if key.is_empty() => return Err(SnmpError::InvalidKey),
                 KT_PASSWORD => self.as_password(key, engine_id),
                 KT_MASTER => self.as_master(key, engine_id),
+                // Localized key is used as is and must have the digest size
+                KT_LOCALIZED if key.len() != self.get_key_size() => {
+                    return Err(SnmpError::InvalidKey);
+                }
                 KT_LOCALIZED => self.as_localized(key),
                 _ => return Err(SnmpError::InvalidKey),
             }
